@@ -261,7 +261,13 @@ func (e *CEnv) Eval(x *CExpr) CVal {
 			s, signed := e.sortOf(v.Type)
 			bv := c.BoundVarNamed(fmt.Sprintf("%s@%d", v.Name, e.fx.eng.exprID(x)), s)
 			bound = append(bound, bv)
-			n.bound[v.Name] = CVal{V: bv, G: v.Type, Signed: signed, T: e.goTypeOf(v.Type)}
+			cv := CVal{V: bv, G: v.Type, Signed: signed, T: e.goTypeOf(v.Type)}
+			if v.Type.Kind == "ptr" && cv.T != nil {
+				if pt, ok := cv.T.(*types.Pointer); ok {
+					cv.V = e.fx.ptrFromRef(pt.Elem(), bv)
+				}
+			}
+			n.bound[v.Name] = cv
 		}
 		body := n.Bool(x.Args[0])
 		return CVal{V: c.Quant(x.Op, bound, body), T: types.Typ[types.Bool]}
@@ -985,6 +991,13 @@ func (e *CEnv) call(x *CExpr) CVal {
 	case "bytesEq":
 		a, b := e.Eval(x.Args[0]), e.Eval(x.Args[1])
 		return CVal{V: e.fx.bytesEq(e.st, a, b), T: types.Typ[types.Bool]}
+	case "seqof":
+		// position of the last call of F in this frame's call sequence (0: never called)
+		key := flatName(x.Args[0])
+		if v, ok := e.st.ghost["call|"+key+"|seq"].(*Term); ok {
+			return CVal{V: v, T: intT, Signed: true}
+		}
+		return CVal{V: e.fx.bv64(0), T: intT, Signed: true}
 	case "called", "callcount":
 		key := flatName(x.Args[0])
 		if x.Name == "called" {
@@ -1009,6 +1022,8 @@ func (e *CEnv) call(x *CExpr) CVal {
 		var sig *types.Signature
 		if fn != nil {
 			sig = fn.Signature
+		} else if parts := strings.Split(key, "."); len(parts) == 3 && e.fx.eng.pkgByName(parts[0]) != nil && ifaceMethodSig(e.fx.eng.pkgByName(parts[0]), parts[1], parts[2]) != nil {
+			sig = ifaceMethodSig(e.fx.eng.pkgByName(parts[0]), parts[1], parts[2])
 		} else if i := strings.IndexByte(key, '.'); i > 0 {
 			// package-level function variable
 			if pkg := e.fx.eng.pkgByName(key[:i]); pkg != nil {
@@ -1406,6 +1421,28 @@ func (e *CEnv) goTypeOf(t *CType) types.Type {
 	case "array":
 		if et := e.goTypeOf(t.Elem); et != nil {
 			return types.NewArray(et, t.N)
+		}
+	case "ptr":
+		if et := e.goTypeOf(t.Elem); et != nil {
+			return types.NewPointer(et)
+		}
+	}
+	return nil
+}
+
+// ifaceMethodSig finds the signature of method m of the named interface type pkg.T.
+func ifaceMethodSig(pkg *types.Package, tname, m string) *types.Signature {
+	o := pkg.Scope().Lookup(tname)
+	if o == nil {
+		return nil
+	}
+	it, ok := o.Type().Underlying().(*types.Interface)
+	if !ok {
+		return nil
+	}
+	for i := 0; i < it.NumMethods(); i++ {
+		if it.Method(i).Name() == m {
+			return it.Method(i).Type().(*types.Signature)
 		}
 	}
 	return nil
